@@ -67,8 +67,8 @@ impl Binder {
             return Err(ErrorKind::TableExists(table_name.into()).with_spanned(&name));
         }
 
-        // check duplicated column names
-        let mut set = HashSet::new();
+        // check duplicated column names (`_rowid_` is the hidden column every table already has)
+        let mut set = HashSet::from(["_rowid_".to_string()]);
         for col in &columns {
             if !set.insert(col.name.value.to_lowercase()) {
                 return Err(
